@@ -188,14 +188,16 @@ def check(repo: Repo, run: Run) -> None:
            ev.loc(fnm))
     # F5 -----------------------------------------------------------------
     info = effrules.interp_analysis(repo)
-    esc = {(t, e) for t, e, _ in info["escapes"]}
-    for tag in ("Evaluator.function_eval", "Evaluator.method_eval"):
-        for exc in ("ValueError", "TypeError", "HostValueError", "HostTypeError"):
-            sub = " (any subclass)" if exc.startswith("Host") else ""
-            run.ob("C14.F5", f"{tag}|{exc}", (tag, exc) not in esc, f"{exc.replace('Host', '')}{sub} raised by a host function is converted in {tag}", str(ev.path))
+    esc_classes = {e for _t, e, _ in info["escapes"]}
+    for exc in ("ValueError", "TypeError", "HostValueError", "HostTypeError"):
+        sub = " (any subclass)" if exc.startswith("Host") else ""
+        # does a host function's exception of this class escape anywhere?
+        leaks = sorted({t for (t, e), sites in info["origin_sites"].items() if e == exc and any(k.startswith("host function") for k, _f in sites)})
+        run.ob("C14.F5", f"host|{exc}", not leaks, f"{exc.replace('Host', '')}{sub} raised by a host function is converted where the function is called" + (f"; it escapes through {leaks}" if leaks else ""), str(ev.path))
+    for meth in ("function_eval", "method_eval"):
         # the converting code must not fail itself: no escaping exception originates in the body of the call method
-        own = sorted((e, o) for (t, e), orgs in info["origins"].items() if t == tag for o in orgs if o.endswith(f"at evaluation.{tag}"))
-        run.ob("C14.F5", f"{tag}|handler-total", not own,
-               f"{tag}: " + ("nothing escapes from the method's own code (lookups, conversion handlers)" if not own else
-                             f"{own[0][0]} arises in the method's own code ({own[0][1]}): a host function's error is replaced by a Python exception instead of an evaluation error"),
+        own = sorted({(e, k) for (_t, e), sites in info["origin_sites"].items() for k, f in sites if f == f"evaluation.Evaluator.{meth}" or f.startswith(f"evaluation.Evaluator.{meth}.")})
+        run.ob("C14.F5", f"Evaluator.{meth}|handler-total", not own,
+               f"Evaluator.{meth}: " + ("nothing escapes from the method's own code (lookups, conversion handlers)" if not own else
+                                        f"{own[0][0]} arises in the method's own code ({own[0][1]}): a host function's error is replaced by a Python exception instead of an evaluation error"),
                str(ev.path))
